@@ -404,6 +404,48 @@ def admission_boundary(mem=8192):
     return hit, "\n".join(text)
 
 
+def repair_then_append(offsets=(10, 9, 12, 20)):
+    """one byte of the FIRST record of the only commit-log segment is altered while the store is closed; the next open
+    repairs the segment (nothing of it is left), commits are acknowledged with immediate durability, process crash,
+    reopen: those commits must be there (the writer must append to the file that is on disk after the repair)"""
+    text = []
+    for off in offsets:
+        ch = Chain("repairappend")
+        out, log = ch.session(txn(1, [("6101", "a101")], sync=True) + txn(2, [("6102", "a102")], sync=True), opts="lc=2,foc=0")
+        root, log1, sim = ch.cur
+        ch.cut(lambda i, l, sim_: i == len(log1) - 1)
+        hit_file = None
+        for p_, f in ch.files.items():
+            if p_.endswith(".wal") and len(f.data) > off:
+                f.data[off] ^= 0xff
+                f.synced = bytes(f.data)
+                f.pending = []
+                hit_file = p_
+        t = ["session 1 (options lc=2,foc=0): two commits; clean process end without flush; byte %d of %s inverted (inside the first record)" % (off, (hit_file or "?").replace(root, ""))]
+        out, log = ch.session(txn(3, [("6201", "b201")], sync=True) + txn(4, [("6202", "b202")], sync=True) + ["begin 9 ro", "scan 9 - ~ f", "drop 9"], "proc", opts="lc=2,foc=0")
+        o2 = out[1] if len(out) > 1 else "no-answer"
+        acked = [k for k, a in (("6201=", out[4] if len(out) > 4 else "-"), ("6202=", out[7] if len(out) > 7 else "-")) if a == "ok"]
+        t.append("session 2: open = %s (repair); commits b201, b202: %s; PROCESS crash" % (o2[:120], " ".join(out[2:8])))
+        if o2 != "ok" or not acked:
+            ch.cleanup()
+            text = t + ["   (open refused or nothing acknowledged: nothing to check)"]
+            continue
+        root, log2, sim = ch.cur
+        ch.cut(lambda i, l, sim_: i == len(log2) - 1)
+        out3, _ = ch.session(["begin 9 ro", "scan 9 - ~ f"], "proc", opts="lc=2,foc=0")
+        res = (out3[1] if len(out3) > 1 else "no-answer"), (out3[3] if len(out3) > 3 else str(out3))
+        t.append("session 3: open = %s, scan = %s" % (res[0], res[1][:200]))
+        missing = [k for k in acked if k not in res[1]]
+        hit = res[0] != "ok" or bool(missing)
+        t.append(("   commits acknowledged after the repair are missing at the next open: %s" % missing) if hit else "   (not reproduced)")
+        t += ["# scripts:"] + ["#  session %d (image policy %s): %s" % (i + 1, pl, " ; ".join(s_[1:])) for i, (pl, s_) in enumerate(ch.scripts)]
+        ch.cleanup()
+        if hit:
+            return True, "\n".join(t)
+        text = t
+    return False, "\n".join(["(offsets tried: %s)" % (list(offsets),)] + text)
+
+
 SCENARIOS = {
     # class name -> (property or properties, scenario); the two recovery-in-pieces scenarios are crashes INSIDE recovery:
     # they lose an acknowledged commit (C02), leave a state that is no prefix (C03) and make two opens differ (C07)
@@ -415,6 +457,7 @@ SCENARIOS = {
     "empty_vlog_file_gets_no_header": ("C07", vlog_header),
     "torn_vlog_file_blocks_reopen": ("C07", vlog_torn_header),
     "torn_header_tail_not_cut": (("C02", "C03"), torn_header_tail),
+    "appends_after_repair_lost": (("C02", "C12"), repair_then_append),
     "oversized_batch_logged_blocks_reopen": (("C02", "C07"), admission_boundary),
 }
 
